@@ -9,3 +9,7 @@ pub open spec fn marked_by_cursor(chain: Seq<Block>, ib: int, off: u64) -> Seq<u
     let before = Seq::new(ib as nat, |k: int| chain[k].id);
     if ib < chain.len() && off >= chain[ib].used { before.push(chain[ib].id) } else { before }
 }
+/// `id` belongs to a block the cursor (ib, off) has completely behind it: a block before ib, or block ib when the cursor stands at its end
+pub open spec fn behind_cursor(chain: Seq<Block>, ib: int, off: u64, id: u64) -> bool {
+    exists|j: int| #![trigger chain[j]] 0 <= j < chain.len() && chain[j].id == id && (j < ib || (j == ib && off >= chain[j].used))
+}
